@@ -739,7 +739,7 @@ def run(ck: core.Check):
     c07.setup_schemas(ck.rng, 30 if quick else 120)
     FLOW["spec"] = core.Driver().results([{"op": "row.flowschema"}])[0]
     ck.evaluations += 1
-    if FLOW["spec"] != FLOW["sj"]:
+    if R.canon_schema(FLOW["spec"]) != R.canon_schema(FLOW["sj"]):     # remap tables are lookups: compared up to order
         ck.tie_break("Rpft.Row.flowRowSchema (specification of the short headers) differs from flowrowmodel.py in the working tree",
                      {"lean_basic": FLOW["spec"].get("basic"), "source_basic": FLOW["sj"].get("basic")})
     corpus(ck)
